@@ -1,7 +1,7 @@
 (* C17: decision rules of SPDCConfig::try_as_spdc on the L4 model (Model/Config.v), for an ARBITRARY numeric carrier,
    arbitrary numeric operations and ARBITRARY oracles: the theorems only use the order of operations. *)
 From Coq Require Import String List Bool ZArith QArith.
-From SpdVerif Require Import Base.NumOps Spec.ConfigSpec Gen.ConfigTables Model.ConfigTypes Model.Config.
+From SpdVerif Require Import Base.CfgNumOps Spec.ConfigSpec Gen.ConfigTables Model.ConfigTypes Model.Config.
 Import ListNotations.
 
 Section Rules.
